@@ -2,6 +2,7 @@ package main
 
 import (
 	"fmt"
+	"strconv"
 	"strings"
 )
 
@@ -94,6 +95,26 @@ func (p *Proj) recovers(e *ErrSpec) bool {
 		return p.As[1] == e.Code
 	}
 	return false
+}
+
+// saysSo: the message of the run's error still says what the cause said (observed "by message").
+func (p *Proj) saysSo(c *cand) string {
+	if c.pan >= 0 {
+		if c.masked && p.Panic == -2 {
+			return ""
+		}
+		id := strconv.Itoa(c.pan)
+		if strings.Contains(p.full, "boom:"+id) || strings.Contains(p.full, "index out of range ["+id+"]") {
+			return ""
+		}
+		return "the panic value of panic " + id
+	}
+	for _, t := range c.err.texts() {
+		if !strings.Contains(p.full, t) {
+			return strconv.Quote(t)
+		}
+	}
+	return ""
 }
 
 func (p *Proj) matches(c *cand) bool {
@@ -264,12 +285,18 @@ func oracle(c *Case, o *Obs) (string, string) {
 		if samePath(p.MsgPath, eager[i].path) {
 			pathHit = true
 			if p.matches(&eager[i]) {
+				if lost := p.saysSo(&eager[i]); lost != "" && p.full != "" {
+					return fmt.Sprintf("the error names the failing node %v and unwraps to its error, but its message no longer contains %s of the cause: %s", p.MsgPath, lost, p.Msg), "message-lost-cause"
+				}
 				return "", ""
 			}
 		}
 	}
 	for i := range lazy {
 		if p.matches(&lazy[i]) {
+			if lost := p.saysSo(&lazy[i]); lost != "" && p.full != "" {
+				return fmt.Sprintf("the error unwraps to the stream's error, but its message no longer contains %s of the cause: %s", lost, p.Msg), "message-lost-cause"
+			}
 			return "", ""
 		}
 		// an interrupt's checkpoint conversion read the panicking stream on the run loop's goroutine of a
@@ -278,7 +305,7 @@ func oracle(c *Case, o *Obs) (string, string) {
 			return "", ""
 		}
 	}
-	if p.Is[2] && hasLimit(c.G) {
+	if p.Is[2] && (hasLimit(c.G) || c.RtMax > 0) {
 		return "", ""
 	}
 	if p.Is[3] && cancelled {
@@ -384,6 +411,9 @@ func tagsOf(c *Case, o *Obs) []string {
 	}
 	if c.InErr != nil {
 		t = append(t, "has:input-error-item")
+	}
+	if c.RtMax > 0 {
+		t = append(t, "has:runtime-max-steps")
 	}
 	if o.P != nil {
 		switch {
